@@ -236,7 +236,10 @@ class TiffStacks:
         self._count += 1
         os.makedirs(d)
         paths = write_files(spec, d)
-        self._cache[key] = (open_stack(paths), full_array(spec), page_table(spec), paths)
+        # "open_order": the order in which the files are HANDED to ImageStack (pylake sorts them by time itself,
+        # so the stack is the same whatever the order)
+        order = spec.get("open_order") or list(range(len(paths)))
+        self._cache[key] = (open_stack([paths[i] for i in order]), full_array(spec), page_table(spec), paths)
         return self._cache[key]
 
     def _evict(self, key):
